@@ -18,6 +18,7 @@ let table : (string * (z list -> z list)) list = [
   ("hair_spans", run_hair_spans);
   ("dash_new", run_dash_new);
   ("dash", run_dash);
+  ("api_fuzz", (fun _ -> [Model.Zneg (Model.XI (Model.XO (Model.XO Model.XH)))]));
   ("stroke_geo", (fun _ -> [Model.Zneg (Model.XI (Model.XO (Model.XO Model.XH)))]));
   ("gather", run_gather);
   ("pat_px", (fun _ -> [Model.Zneg (Model.XI (Model.XO (Model.XO Model.XH)))]));
